@@ -54,6 +54,8 @@ PROPS["C04"] = dict(
     tests=[
         dict(name="TestVF_C04", quick=dict(checks=60000, shards=8, timeout=300), thorough=dict(checks=3000000, shards=16, timeout=3000)),
         dict(name="TestVF_C04AllBytes", rapid=False, quick=dict(shards=1, timeout=300), thorough=dict(shards=1, timeout=600)),
+        dict(name="TestVF_C04Wire", env=dict(VERIF_CASE_LIMIT=300),
+             quick=dict(checks=480, shards=8, timeout=600), thorough=dict(checks=12000, shards=16, timeout=3000)),
     ],
 )
 
@@ -175,4 +177,23 @@ PROPS["C09"] = dict(
     rule="non-trivial = some name would resolve outside the destination under a plain filepath.Join; distinct by SHA-1 of the case JSON",
     tests=[dict(name="TestVF_C09", env=dict(VERIF_CASE_LIMIT=300),
                 quick=dict(checks=2400, shards=16, timeout=600), thorough=dict(checks=80000, shards=16, timeout=6000))],
+)
+
+PROPS["C02"] = dict(
+    level="fault_enumeration", engine="E2 pair (byte faults on the harness wire)",
+    technique="fault injection driven by rapid: byte-level faults at generated / boundary-biased offsets of either direction of real transfers; success-implies-identical oracle; exhaustive offsets for fixed scenarios",
+    level_text="Each case first runs its scenario fault-free to learn both transcripts (message boundaries, phases), then re-runs it with 1-3 faults (bit flip, delete 1-3 bytes, "
+               "duplicate 1-64 bytes, insert 1-8 generated bytes, truncate the tail) at offsets drawn half uniformly, half at message boundaries and field digits, in either "
+               "direction, over direction x protocol 1-4 x base64/binary x escape x compress x Windows framing. Oracle: whenever a side reports success every destination file is "
+               "byte-identical to its source. The thorough tier enumerates every offset of both transcripts of three fixed one-file scenarios for bit flip and 1-byte delete.",
+    level_note="Pair engine: the fault domain is the whole connection from the ACT line on (there is no terminal trigger line in this engine). A watchdog expiry is counted as inconclusive (C11 decides hangs). "
+               "The phase histogram in the evidence shows which protocol phases the faults landed in.",
+    rule="non-trivial = at least one fault was applied inside the transcript of the faulted run; distinct by SHA-1 of the case JSON (scenario, fault kinds, selectors)",
+    exhaustive_scope="3 fixed one-file scenarios x every offset of both directions x {bit flip, delete one byte}",
+    tests=[
+        dict(name="TestVF_C02", env=dict(VERIF_CASE_LIMIT=300),
+             quick=dict(checks=480, shards=16, timeout=900), thorough=dict(checks=12000, shards=16, timeout=10000)),
+        dict(name="TestVF_C02Exhaustive", rapid=False, env=dict(VERIF_CASE_LIMIT=300),
+             quick=dict(shards=16, timeout=900, env=dict(VERIF_C02_STRIDE=37)), thorough=dict(shards=16, timeout=14000, env=dict(VERIF_C02_STRIDE=1))),
+    ],
 )
